@@ -480,6 +480,11 @@ def run(fx, chk, tier):
                     moved = [x for x in between if x != b and body.term(x)["k"] == "call" and rescan.stream_call(fx, body.term(x), iof)]
                     chk.require(not moved, "R5", key, "called with the stream at the end of the header just read", "the stream is moved between the header read and skip_box, which measures from the current position", site_of(fn, t.get("line")))
         chk.floor("R5", "skip_box calls in box-walk loops", nskip, 20)
+    # ---------------- R6: the offsets the layouts shift (instances owned by C03 / C09)
+    from packs_common import compose
+    chk.rule("R6", "sample offsets move with the layout: the offset arithmetic of both lookups is dimension-, scope- and sign-correct, so media data before its header (negative run offset) or beyond 4 GiB resolves like any other layout (C03 / C09 R-UNITS instances)")
+    compose(fx, chk, tier, "R6", "C03", ["R-UNITS"], floor=15, what="non-fragmented offset arithmetic obligations")
+    compose(fx, chk, tier, "R6", "C09", ["R-UNITS"], floor=13, what="fragmented offset arithmetic obligations")
     return chk.finish(
         "other",
         "%d child-type dispatches, %d decoders and the header-form constants are checked structurally on HIR/MIR; the rules are necessary conditions of layout independence "
